@@ -130,21 +130,33 @@ def applySet (addr : Bytes) (acc : List Record × Cache) : FlowSet → List Reco
 def expected (addr : Bytes) (c : Cache) (m : Msg) : List Record × Cache :=
   m.sets.foldl (applySet addr) ([], c)
 
-/-- total length of a set fits the 16-bit length field -/
+/-- total length of a flowset fits the 16-bit length field -/
 def wfSetLen (body pad : Bytes) : Bool :=
-  decide (pad.length ≤ 4) && decide (4 + (body ++ pad).length < 65536)
+  decide (4 + (body ++ pad).length < 65536)
+
+/-- padding of a template / options-template flowset: at most 4 octets, any content.  RFC 3954 §5.2 / §6.1
+pad to a 4-octet boundary (0..3 octets); a template record has at least 4 octets, so "shorter than the
+shortest record" gives the same 0..3.  The decoder's template loop stops when at most 4 octets are left, so
+the theorems are stated (and hold) for 0..4; 5 or more octets would be read as a template record. -/
+def wfTplPad (pad : Bytes) : Bool := decide (pad.length ≤ 4)
+
+/-- padding of a data flowset: **shorter than the template's record** (the rule of RFC 7011 §3.3.1, which
+is also the only way to tell padding from a record in RFC 3954 §5.3: "padding … so that the subsequent
+FlowSet starts at a 4-byte aligned boundary" is 0..3 octets, and alignment to 8 gives up to 7), any content.
+Before the padding repair (F16) this read `pad.length ≤ 4`, a bound forced by the decoder's constant `> 4`. -/
+def wfDataPad (t : Template) (pad : Bytes) : Bool := decide (pad.length < recLen t)
 
 /-- well-formedness of a flowset relative to the cache in force when it is reached: a data flowset's
-template is the one the cache returns for (exporter, flowset id); every record is longer than
-4 octets (finding K2: shorter trailing records are taken for padding); at most 4 octets of padding
-(RFC: up to 3 zero octets — the content is irrelevant here) -/
+template is the one the cache returns for (exporter, flowset id); records have a positive length
+(a template of zero-length fields describes no octets at all: the decoder reports `zero-length data
+record`, F2) — the former "longer than 4 octets" (K2) is gone; padding as `wfTplPad` / `wfDataPad` -/
 def wfSet (addr : Bytes) (c : Cache) : FlowSet → Bool
-  | .tpl ts pad => !ts.isEmpty && ts.all wfTemplate && wfSetLen (ts.map encodeTemplate).flatten pad
-  | .optTpl ts pad => !ts.isEmpty && ts.all wfOptTemplate && wfSetLen (ts.map encodeOptTemplate).flatten pad
+  | .tpl ts pad => !ts.isEmpty && ts.all wfTemplate && (wfTplPad pad && wfSetLen (ts.map encodeTemplate).flatten pad)
+  | .optTpl ts pad => !ts.isEmpty && ts.all wfOptTemplate && (wfTplPad pad && wfSetLen (ts.map encodeOptTemplate).flatten pad)
   | .data t records pad =>
     decide (255 < t.tid) && decide (t.tid < 65536) && c.lookup addr t.tid == some t &&
-    decide (4 < recLen t) && !records.isEmpty && records.all (wfRecord t) &&
-    wfSetLen (records.map (encodeRecord t)).flatten pad
+    decide (0 < recLen t) && !records.isEmpty && records.all (wfRecord t) &&
+    (wfDataPad t pad && wfSetLen (records.map (encodeRecord t)).flatten pad)
 
 /-- the flowsets in order, each judged against the cache as updated by its predecessors -/
 def wfSets (addr : Bytes) : Cache → List FlowSet → Bool
@@ -191,9 +203,18 @@ def wfField (s : Spec) (v : VVal) : Bool :=
       (if v.long then decide (v.octets.length < 65536) else decide (v.octets.length < 255))
     else v.octets.length == s.len
 
+/-- a record fits its template field by field and has a positive length (a record of no octets — every
+field of fixed length 0 — cannot be told from the end of the set; the decoder reports `zero-length data
+record`, F2).  Before the padding repair this demanded more than 4 octets (finding K2). -/
 def wfRecord (t : Template) (vals : List VVal) : Bool :=
   (specsOf t).length == vals.length && (List.zipWith wfField (specsOf t) vals).all id &&
-  decide (4 < (encodeRecord t vals).length)
+  decide (0 < (encodeRecord t vals).length)
+
+/-- RFC 7011 §3.3.1 "shorter than any allowable record in this Set": the shortest record a template can
+describe — a fixed-length field counts its length, a variable-length field (65535) its 1-octet length
+prefix with an empty value (§7) -/
+def minRecLen (t : Template) : Nat :=
+  ((specsOf t).map (fun s => if s.len = 65535 then 1 else s.len)).sum
 
 /-- §3.2 field specifier: E bit + element id, length, enterprise number if E -/
 def encodeSpec (s : Spec) : Bytes :=
@@ -271,18 +292,35 @@ def applySet (addr : Bytes) (acc : List Record × Cache) : FlowSet → List Reco
 def expected (addr : Bytes) (c : Cache) (m : Msg) : List Record × Cache :=
   m.sets.foldl (applySet addr) ([], c)
 
+/-- total length of a set fits the 16-bit length field (§3.3.2) -/
 def wfSetLen (body pad : Bytes) : Bool :=
-  decide (pad.length ≤ 4) && decide (4 + (body ++ pad).length < 65536)
+  decide (4 + (body ++ pad).length < 65536)
 
-/-- as for v9; a record's length depends on its variable-length values, so "longer than 4 octets" is
-part of `wfRecord` -/
+/-- padding of a template / options-template set: at most 4 octets, any content.  RFC 7011 §3.3.1 asks for
+padding shorter than any allowable record; the shortest template record (a withdrawal, §8.1) has 4 octets,
+so the RFC allows 0..3.  The decoder's template loop stops when at most 4 octets are left (and at a template
+id 0), so the theorems are stated (and hold) for 0..4; 5 or more octets of non-zero padding would be read
+as a template record — that code path is unchanged by the padding repair. -/
+def wfTplPad (pad : Bytes) : Bool := decide (pad.length ≤ 4)
+
+/-- padding of a data set, RFC 7011 §3.3.1: "The padding length MUST be shorter than any allowable record
+in this Set" — shorter than `minRecLen t`; any content (the RFC's "SHOULD be zero" is not needed).  Before
+the padding repair (F16) this read `pad.length ≤ 4`, a bound forced by the decoder's constant `> 4` and
+not by the RFC: 8-octet alignment after records of 8 or more octets gives up to 7 octets.  The new bound is
+weaker than the old one except for templates whose shortest record has at most 4 octets (variable-length
+fields): there `minRecLen t ≤ pad.length ≤ 4` was accepted before and is not now — such octets are records, not
+padding (`C03.padding_not_shorter_than_a_record_is_data`). -/
+def wfDataPad (t : Template) (pad : Bytes) : Bool := decide (pad.length < minRecLen t)
+
+/-- as for v9; a record's length depends on its variable-length values, so "positive length" is part of
+`wfRecord` -/
 def wfSet (addr : Bytes) (c : Cache) : FlowSet → Bool
-  | .tpl ts pad => !ts.isEmpty && ts.all wfTemplate && wfSetLen (ts.map encodeTemplate).flatten pad
-  | .optTpl ts pad => !ts.isEmpty && ts.all wfOptTemplate && wfSetLen (ts.map encodeOptTemplate).flatten pad
+  | .tpl ts pad => !ts.isEmpty && ts.all wfTemplate && (wfTplPad pad && wfSetLen (ts.map encodeTemplate).flatten pad)
+  | .optTpl ts pad => !ts.isEmpty && ts.all wfOptTemplate && (wfTplPad pad && wfSetLen (ts.map encodeOptTemplate).flatten pad)
   | .data t records pad =>
     decide (255 < t.tid) && decide (t.tid < 65536) && c.lookup addr t.tid == some t &&
     !records.isEmpty && records.all (wfRecord t) &&
-    wfSetLen (records.map (encodeRecord t)).flatten pad
+    (wfDataPad t pad && wfSetLen (records.map (encodeRecord t)).flatten pad)
 
 def wfSets (addr : Bytes) : Cache → List FlowSet → Bool
   | _, [] => true
